@@ -166,3 +166,40 @@ Theorem C03_delete_feed_is_per_leaf :
     render_deletes removed ts = map (fun d => mk_delete d ts (del_path d)) removed.
 Proof. exact render_alias_free. Qed.
 Print Assumptions C03_delete_feed_is_per_leaf.
+
+(** two concurrent writers of one target: with the per-target write lock held
+    across [decide; write; announce] (b865e5c) every schedule of the two
+    critical sections ends in the state and feed of one of the two sequential
+    orders, for ANY sequential call semantics [f] ... *)
+Theorem C03_locked_writers_serialise :
+  forall (S F O : Type) (f : S -> O -> S * list F) (op : bool -> O) (s0 : S) sched st,
+    trun2 f op true sched (tinit s0) = Some st ->
+    (sh st, fd st) = seqrun f op s0 (ord st) /\
+    (w_pc (wt st) = 4%nat -> w_pc (wf st) = 4%nat -> ord st = [true; false] \/ ord st = [false; true]).
+Proof. intros S F O f op s0 sched st. exact (locked_writers_serialise f op s0 true sched st eq_refl). Qed.
+Print Assumptions C03_locked_writers_serialise.
+
+(** ... in particular for two calls on the cache model *)
+Theorem C03_cache_writers_serialise :
+  forall (c0 : cache) (a b : cop) sched st,
+    trun2 (fun c o => let '(c', _, mf) := mstep c o in (c', cfeed mf)) (fun i : bool => if i then a else b) true
+          sched (tinit c0) = Some st ->
+    w_pc (wt st) = 4%nat -> w_pc (wf st) = 4%nat ->
+    let g := fun c o => let '(c', _, mf) := mstep c o in (c', cfeed mf) in
+    (sh st, fd st) = seqrun g (fun i : bool => if i then a else b) c0 [true; false] \/
+    (sh st, fd st) = seqrun g (fun i : bool => if i then a else b) c0 [false; true].
+Proof. exact cache_writers_serialise. Qed.
+Print Assumptions C03_cache_writers_serialise.
+
+(** ... and without the lock the decision is stale at commit time (refuted:
+    stored 50, writers 100 and 200, the leaf ends at 100) *)
+Theorem C03_unlocked_lost_update :
+  let f := fun (s v : Z) => if Z.ltb s v then (v, [v]) else (s, []) in
+  let op := fun i : bool => if i then 100 else 200 in
+  exists sched st,
+    trun2 f op false sched (tinit 50) = Some st /\
+    w_pc (wt st) = 4%nat /\ w_pc (wf st) = 4%nat /\
+    (sh st, fd st) <> seqrun f op 50 [true; false] /\
+    (sh st, fd st) <> seqrun f op 50 [false; true] /\ sh st = 100.
+Proof. exact unlocked_lost_update. Qed.
+Print Assumptions C03_unlocked_lost_update.
